@@ -41,6 +41,9 @@ type Conn struct {
 	onWrite     func(seq int, b []byte) error // runs inside Write, before it returns
 	syncWrites  bool
 	failWriteAt map[int]error
+	failAllWrites error
+	slowClose     time.Duration
+	failedWrites [][]byte
 	writeGate   chan struct{} // non-nil: Write blocks until closed
 
 	rdl          time.Time // virtual read deadline in force (zero = none)
@@ -117,6 +120,14 @@ func (c *Conn) Write(p []byte) (int, error) {
 	seq := len(c.writes)
 	if err, ok := c.failWriteAt[seq]; ok {
 		c.writes = append(c.writes, nil)
+		c.failedWrites = append(c.failedWrites, append([]byte(nil), p...))
+		c.mu.Unlock()
+		return 0, err
+	}
+	if c.failAllWrites != nil {
+		err := c.failAllWrites
+		c.writes = append(c.writes, nil)
+		c.failedWrites = append(c.failedWrites, append([]byte(nil), p...))
 		c.mu.Unlock()
 		return 0, err
 	}
@@ -162,6 +173,12 @@ func (c *Conn) Write(p []byte) (int, error) {
 }
 
 func (c *Conn) Close() error {
+	c.mu.Lock()
+	d := c.slowClose
+	c.mu.Unlock()
+	if d > 0 {
+		time.Sleep(d) // e.g. a TLS close_notify to a stalled peer
+	}
 	c.mu.Lock()
 	c.closed = true
 	c.closeCount++
@@ -284,6 +301,28 @@ func (c *Conn) FailWrite(seq int, err error) {
 	c.mu.Lock()
 	c.failWriteAt[seq] = err
 	c.mu.Unlock()
+}
+
+// FailWritesFromNow makes every later Write fail with err (a connection the peer has
+// dropped without the client noticing).
+func (c *Conn) FailWritesFromNow(err error) {
+	c.mu.Lock()
+	c.failAllWrites = err
+	c.mu.Unlock()
+}
+
+// SetSlowClose makes Close take d before the connection counts as closed.
+func (c *Conn) SetSlowClose(d time.Duration) {
+	c.mu.Lock()
+	c.slowClose = d
+	c.mu.Unlock()
+}
+
+// FailedWrites returns the payloads of Writes that were made to fail.
+func (c *Conn) FailedWrites() [][]byte {
+	c.mu.Lock()
+	defer c.mu.Unlock()
+	return append([][]byte(nil), c.failedWrites...)
 }
 
 // BlockWrites makes every Write block until the returned func is called.
